@@ -19,6 +19,7 @@ NONTRIVIAL = {
     "c11": nonempty_bytes("name"),
     "fp": lambda i: isinstance(i, dict) and any(len(a) > 0 for a in i.get("args", [])),
     "c19": lambda i: isinstance(i, dict) and (len(i.get("s") or []) > 0 or len(i.get("m") or []) > 0 or i.get("op") not in ("parse", "print")),
+    "c20": lambda i: isinstance(i, dict) and len(i.get("runes") or []) > 1,
     "c15": lambda i: isinstance(i, dict) and len(i.get("name") or []) > 1,
 }
 
@@ -47,5 +48,13 @@ PROPS = {
         "rule": "exhaustive parameter strings over {a,b,',','=',' '} up to length 6 (8 thorough) + corpus; random maps inside and outside the stated domain; int/uint extremes and random magnitudes, raw strings through the typed getters; clone followed by random writes through either handle (including empty maps); float/duration codecs sampled (incl. +-Inf, NaN, subnormals, min/max duration); non-trivial = non-empty string/map or a typed/clone op",
         "level_text": "Theorems: print invariant under permutation of the map's entries and sorted; parse(print m) = m on the stated domain; parse(print(parse s)) = parse s for every byte string; last duplicate wins (parse of a++','++b = parse a overridden by parse b); bare key maps to empty and reads as true; int/uint/bool set-then-get round trips for all 64-bit values with Lean models of Itoa/Atoi/FormatUint/ParseUint/FormatBool/ParseBool; writes through a clone never reach the original. All over unbounded byte strings / maps.",
         "level_note": "Trusted: Lean kernel; Go map semantics (a map is an association list with distinct keys; iteration order arbitrary - print is proved order-independent); strconv float and time.Duration format/parse pairs are assumed to round-trip (sampled by the harness every run, labelled as a test, not proved); unicode.IsSpace restricted to ASCII blanks in the Bool model.",
+    },
+    "C20": {
+        "engines": [("c20", "main")],
+        "lean": ["PgsVerif.Props.C20"],
+        "category": "exploration",
+        "rule": "corpus + exhaustive texts over {a,' ',newline,e-acute,U+3000,bb} up to 5 symbols (7 thorough) x widths incl. degenerate ones; word-length x separator x width grids; random texts with Unicode blanks and invalid bytes; texts beyond 4KiB and 64KiB; non-trivial = at least 2 runes",
+        "level_text": "THEOREMS PENDING (level exploration until they are proved): executable Lean model of bufio.Scanner+splitComment at rune/byte level compared with the real code, and the property as a checker (Phi) evaluated on every implementation output. Planned theorems over all texts, all rune decorations and all widths (also <= 3 and negative): words of the output in order = words of the input, every line marked and non-empty, every multi-word line within the width.",
+        "level_note": "Trusted: Lean kernel; utf8.DecodeRune and unicode.IsSpace enter as per-input decoration of the text (theorems hold for every decoration); bufio.Scanner modelled for a reader that delivers the whole text in one read (the buffer is sized len(text)+1 by the code), validated against the real scanner incl. texts > 64KiB; fmt.Fprintln/strings.Fields/Join modelled as marker + blank-separated words.",
     },
 }
